@@ -1,7 +1,7 @@
 (* C15 non-vacuity: concrete inputs meeting the hypotheses of the theorems in
    Props.v, and concrete instances of the abstract codings / primitives that
    satisfy the section hypotheses (so the hypotheses are consistent). *)
-From CJ Require Import Common.Base Common.BaseProofs C15.Model C15.Proofs C15.ModelName C15.ProofsName C15.ModelObf C15.ProofsObf C15.ModelAny C15.ProofsAny C15.ModelDns C15.ProofsDns C15.ModelB32 C15.ModelExch C15.ProofsExch C15.ModelPb C15.ProofsPb C15.ModelDot C15.ProofsDot C15.Run.
+From CJ Require Import Common.Base Common.BaseProofs C15.Model C15.Proofs C15.ModelName C15.ProofsName C15.ModelObf C15.ProofsObf C15.ModelAny C15.ProofsAny C15.ModelDns C15.ProofsDns C15.ModelB32 C15.ModelExch C15.ProofsExch C15.ModelPb C15.ProofsPb C15.ModelDot C15.ProofsDot C15.ModelSeq C15.ProofsSeq C15.Run.
 From Coq Require Import Lia ZifyN ZifyNat ZifyBool.
 Ltac Zify.zify_post_hook ::= Z.div_mod_to_equations.
 
@@ -250,4 +250,63 @@ Proof.
   do 4 eexists. split; [vm_compute; reflexivity|]. split; [vm_compute; reflexivity|]. split; [discriminate|].
   do 2 eexists. split; [vm_compute; reflexivity|]. split; [vm_compute; reflexivity|]. split; [vm_compute; reflexivity|].
   split; vm_compute; reflexivity.
+Qed.
+
+(* ---- sequences of calls whose results are all kept (ModelSeq / Props3) ---- *)
+(* a rejected value in the middle leaves its neighbours alone *)
+Example ex_seq_request :
+  dec_each_d remove_request_format (enc_each_d add_request_format [[1; 2]; lcg_bytes 1 256; []; [1; 2]])
+  = [Some [1; 2]; None; Some []; Some [1; 2]].
+Proof. vm_compute. reflexivity. Qed.
+Example ex_seq_names :
+  dec_each_d name_dec (enc_each_d name_enc [[lbl 97 3; lbl 98 1]; [lbl 97 64]; []; [lbl 97 3; lbl 98 1]])
+  = [Some [lbl 97 3; lbl 98 1]; None; Some []; Some [lbl 97 3; lbl 98 1]].
+Proof. vm_compute. reflexivity. Qed.
+Example ex_seq_messages :
+  Forall names_ok [chain_msg 3; chain_msg 11; chain_msg 3] /\
+  dec_each_d msg_dec (enc_each_d msg_enc [chain_msg 3; chain_msg 11; chain_msg 3]) = [Some (chain_msg 3); Some (chain_msg 11); Some (chain_msg 3)].
+Proof.
+  split; [|vm_compute; reflexivity].
+  repeat constructor; unfold names_ok; rewrite Forall_forall; intros n Hn;
+    repeat (destruct Hn as [<-|Hn]; [vm_compute; reflexivity|]); destruct Hn.
+Qed.
+(* three XOR encodings of ONE tag under pairwise different pads: all kept, pairwise different, all revealed *)
+Definition ex_pads : list bytes := [[10; 20]; [10; 21]; [11; 20]].
+Definition ex_tags : list obf_item := [([], [1; 2]); ([], [1; 2]); ([], [1; 2])].
+Example ex_seq_xor :
+  Forall2 pad_fits ex_pads ex_tags /\ NoDup ex_pads /\
+  somes (enc_each xor_enc ex_pads ex_tags) = [[10; 20; 11; 22]; [10; 21; 11; 23]; [11; 20; 10; 22]] /\
+  dec_each xor_dec (map fst ex_tags) (enc_each xor_enc ex_pads ex_tags) = [Some [1; 2]; Some [1; 2]; Some [1; 2]].
+Proof.
+  repeat split; try (vm_compute; reflexivity).
+  - repeat constructor.
+  - repeat constructor; cbn; intuition discriminate.
+Qed.
+(* the hypothesis of the CTR/GCM freshness theorem is satisfiable with the toy primitives: three draws that differ in the
+   candidate found or in the two high bits, the same tag three times under one station key *)
+Definition ex_draws : list obf_rand :=
+  [{| or_cands := [[7; 1]; [9; 9; 9]]; or_byte := 200 |}; {| or_cands := [[9; 9; 9]]; or_byte := 1 |}; {| or_cands := [[9; 9; 8]]; or_byte := 200 |}].
+Lemma ex_draws_differ : ForallOrdPairs (draws_differ t_sbm) ex_draws.
+Proof.
+  assert (D : forall r1 r2 a b c d e f,
+             first_representable t_sbm (or_cands r1) = Some (a, b, c) -> first_representable t_sbm (or_cands r2) = Some (d, e, f) ->
+             (c <> f \/ N.land 192 (or_byte r1) <> N.land 192 (or_byte r2)) -> draws_differ t_sbm r1 r2).
+  { intros r1 r2 a b c d e f F1 F2 H a1 p1 q1 a2 p2 q2 G1 G2. rewrite F1 in G1. rewrite F2 in G2.
+    injection G1 as <- <- <-. injection G2 as <- <- <-. exact H. }
+  unfold ex_draws.
+  apply FOP_cons; [apply Forall_cons; [|apply Forall_cons; [|apply Forall_nil]]|
+                   apply FOP_cons; [apply Forall_cons; [|apply Forall_nil]|apply FOP_cons; [apply Forall_nil|apply FOP_nil]]].
+  - eapply D; [vm_compute; reflexivity|vm_compute; reflexivity|]. right. vm_compute. discriminate.
+  - eapply D; [vm_compute; reflexivity|vm_compute; reflexivity|]. left. vm_compute. discriminate.
+  - eapply D; [vm_compute; reflexivity|vm_compute; reflexivity|]. left. vm_compute. discriminate.
+Qed.
+Example ex_seq_gcm :
+  let items := [([5; 5], [1; 2; 3]); ([5; 5], [1; 2; 3]); ([5; 5], [1; 2; 3])] in
+  NoDup (somes (enc_each (gcm_enc t_sbm t_x t_sha t_seal t_mask) ex_draws items)) /\
+  dec_each (gcm_dec t_r2p t_x t_sha t_open) (map fst items) (enc_each (gcm_enc t_sbm t_x t_sha t_seal t_mask) ex_draws items)
+  = [Some [1; 2; 3]; Some [1; 2; 3]; Some [1; 2; 3]].
+Proof.
+  split.
+  - apply (seq_gcm_fresh t_sbm t_r2p t_x t_sha t_ctr t_seal t_open t_mask toy_laws); [reflexivity|exact ex_draws_differ].
+  - vm_compute. reflexivity.
 Qed.
